@@ -17,6 +17,7 @@ import (
 	"go/printer"
 	"go/token"
 	"os"
+	"strings"
 )
 
 var fset = token.NewFileSet()
@@ -55,6 +56,13 @@ func tree(e ast.Expr) any {
 	case *ast.BasicLit:
 		return atom(x.Value)
 	case *ast.FuncLit:
+		// a Folang lambda: func(y T) U { return e }  ->  lam y e   (the closures of partial applications name their parameters _rN)
+		if x.Type.Params != nil && len(x.Type.Params.List) == 1 && len(x.Type.Params.List[0].Names) == 1 &&
+			!strings.HasPrefix(x.Type.Params.List[0].Names[0].Name, "_r") && len(x.Body.List) == 1 {
+			if rs, ok := x.Body.List[0].(*ast.ReturnStmt); ok && len(rs.Results) == 1 {
+				return []any{"lam", x.Type.Params.List[0].Names[0].Name, tree(rs.Results[0])}
+			}
+		}
 		// closure made for a partial application: func(_r0 T) U { return h(b, _r0) }  ->  app h b
 		if len(x.Body.List) == 1 {
 			var call *ast.CallExpr
@@ -83,6 +91,26 @@ func tree(e ast.Expr) any {
 			return []any{"bin", "|>", tree(x.Args[0]), tree(x.Args[1])}
 		case "OpNot":
 			return []any{"not", tree(x.Args[0])}
+		case "IfElse":
+			// frt.IfElse(c, func() T { return t }, func() T { return e })  ->  if c t e
+			if len(x.Args) == 3 {
+				br := func(a ast.Expr) any {
+					for {
+						pe, ok := a.(*ast.ParenExpr)
+						if !ok {
+							break
+						}
+						a = pe.X
+					}
+					if fl, ok := a.(*ast.FuncLit); ok && len(fl.Body.List) == 1 {
+						if rs, ok := fl.Body.List[0].(*ast.ReturnStmt); ok && len(rs.Results) == 1 {
+							return tree(rs.Results[0])
+						}
+					}
+					return atom("<branch>")
+				}
+				return []any{"if", tree(x.Args[0]), br(x.Args[1]), br(x.Args[2])}
+			}
 		}
 		if id, ok := x.Fun.(*ast.Ident); ok && len(x.Args) == 1 {
 			return []any{"app", id.Name, tree(x.Args[0])}
